@@ -69,7 +69,12 @@ pub fn route_m2s_private_payload(
             from: router.local_domain(),
             length: outbound.payload.len() as u32,
           });
+          let mut delivered = std::collections::HashSet::new();
           for target in outbound.targets {
+            // A target listed more than once still gets the payload once per connection.
+            if !delivered.insert(target.clone()) {
+              continue;
+            }
             match router.route_to(mod_priv_msg.clone(), Some(outbound.payload.clone()), target, None) {
               Ok(_) => {},
               Err(err) => {
